@@ -24,6 +24,9 @@ site: http://bugseng.com/products/ppl/ . */
 #include "ppl-config.h"
 #include "Grid_defs.hh"
 #include <cstddef>
+#ifdef BUGSENG_PPL_VERIF
+#include "verif_hooks.hh"
+#endif
 
 namespace Parma_Polyhedra_Library {
 
@@ -159,6 +162,9 @@ Grid::multiply_grid(const Coefficient& multiplier, Congruence& cg,
 void
 Grid::conversion(Grid_Generator_System& source, Congruence_System& dest,
                  Dimension_Kinds& dim_kinds) {
+#ifdef BUGSENG_PPL_VERIF
+  PPL_VERIF_REACH(GRID_CONV_G2C);
+#endif
   // Quite similar to the congruence to generator version below.
   // Changes here may be needed there too.
 
@@ -336,6 +342,9 @@ Grid::conversion(Grid_Generator_System& source, Congruence_System& dest,
 void
 Grid::conversion(Congruence_System& source, Grid_Generator_System& dest,
                  Dimension_Kinds& dim_kinds) {
+#ifdef BUGSENG_PPL_VERIF
+  PPL_VERIF_REACH(GRID_CONV_C2G);
+#endif
   // Quite similar to the generator to congruence version above.
   // Changes here may be needed there too.
 
